@@ -334,12 +334,14 @@ impl EdgeLocate for FitRadiusEdge {
                 BestFit::Gaussian(2.0),
             )?;
 
-            // To finish, the distance between the last inscribed circle and the test fit circle should
-            // be less than the tolerance and the max circle residual should be less than the tolerance.
-            // let circle_err = dist(&test.center, &station.circle.center);
+            // To finish, the max circle residual should be less than the tolerance. The search is
+            // also finished when the fitted circle no longer moves away from the last inscribed
+            // circle: there is then no direction left to advance in, and the ray built from the
+            // (numerically meaningless) shift would run along the airfoil instead of across it.
+            let circle_err = dist(&test.center, &station.circle.center);
             let residual = max_circle_residual(&edge_curve, &test);
 
-            if residual < check_tol {
+            if residual < check_tol || circle_err < check_tol {
                 // Find the intersection point with the end of the section
                 let edge_point = working_stations.intersect_from_end(&edge_curve)?;
                 let arc = station.contact_arc(&end_sp);
